@@ -1048,7 +1048,8 @@ class Collector:
              ('copy', 'check_copy', 'Gen/CounterCopy.lc_copy vs copy(line_ctr) in LexerState.__copy__ and the calls on the copy'),
              ('fork', 'check_fork', 'Pos/Recover.lex_fork vs the token stream of a forked lexer state'),
              ('rec', 'check_rec', 'Pos/Recover.lex_slice_rec vs tokens and skipped characters of parse(on_error=...)'),
-             ('pp', 'check_pp', 'Pos/PropPosModel.rpropagate (regenerated PropagatePositions, attribute-wise) vs each callback'))
+             ('pp', 'check_pp', 'Pos/PropPosModel.rpropagate (regenerated PropagatePositions, attribute-wise) vs each callback'),
+             ('slice', 'check_slice', 'Gen/TextSlice.ts_start/ts_end/ts_complete/ts_len vs TextSlice(buf, start, end)'))
 
     def __init__(self, ctx, prefix, oracle, witness, run_witness):
         self.ctx = ctx
